@@ -82,6 +82,10 @@ type CacheCase struct {
 	Tasks []TaskSpec        `json:"tasks"`
 	Init  map[string]string `json:"init"`
 	Steps []Step            `json:"steps"`
+	// Late: tasks the spokfile does not have at first; each step "grow" adds the next one at the end
+	// of the file (spokfiles are edited between runs: what was recorded for the tasks that were there
+	// before still counts)
+	Late []TaskSpec `json:"late,omitempty"`
 	// Links: symbolic links (name -> target, relative to the project) created before the first
 	// step; a dependency path that is a link denotes the content seen through it.
 	Links map[string]string `json:"links,omitempty"`
@@ -301,13 +305,15 @@ func execCache(id string, s *ev.Shard, root string, c CacheCase) *rp.Fail {
 	for name, target := range c.Links {
 		links[name] = target
 	}
+	active := append([]TaskSpec(nil), c.Tasks...)
+	late := append([]TaskSpec(nil), c.Late...)
 	src := c.Source()
 	specs := map[string]TaskSpec{}
-	for _, t := range c.Tasks {
+	for _, t := range active {
 		specs[t.Name] = t
 	}
 	state := map[string]*taskState{}
-	for _, t := range c.Tasks {
+	for _, t := range active {
 		state[t.Name] = &taskState{}
 	}
 	size := len(c.Steps) + len(c.Tasks)
@@ -387,6 +393,18 @@ func execCache(id string, s *ev.Shard, root string, c CacheCase) *rp.Fail {
 				}
 			}
 			fileActSinceRun = true
+		case "grow":
+			if len(late) == 0 {
+				continue
+			}
+			nt := late[0]
+			late = late[1:]
+			active = append(active, nt)
+			specs[nt.Name] = nt
+			state[nt.Name] = &taskState{}
+			grown := c
+			grown.Tasks = active
+			src = grown.Source()
 		case "rmcache":
 			if st.Whole {
 				_ = os.RemoveAll(filepath.Join(root, ".spok"))
@@ -397,6 +415,15 @@ func execCache(id string, s *ev.Shard, root string, c CacheCase) *rp.Fail {
 				ts.last, ts.tainted, ts.unknown = nil, false, false
 			}
 		case "run":
+			undefined := false
+			for _, n := range st.Tasks {
+				if _, ok := specs[n]; !ok {
+					undefined = true
+				}
+			}
+			if undefined {
+				continue // asks for a task the spokfile does not have yet: not a run of these histories
+			}
 			entries, err := model.Walk(root)
 			if err != nil {
 				return &rp.Fail{Sig: "harness", Msg: err.Error()}
@@ -406,7 +433,7 @@ func execCache(id string, s *ev.Shard, root string, c CacheCase) *rp.Fail {
 			// when spok looked at it (its position in the run order).
 			takeAll := func(entries []model.Entry) map[string]snapshot {
 				m := map[string]snapshot{}
-				for _, t := range c.Tasks {
+				for _, t := range active {
 					m[t.Name] = takeSnapshot(root, entries, t)
 				}
 				return m
@@ -476,7 +503,7 @@ func execCache(id string, s *ev.Shard, root string, c CacheCase) *rp.Fail {
 					cur++
 				}
 			}
-			for _, t := range c.Tasks {
+			for _, t := range active {
 				if decided[t.Name] {
 					continue
 				}
@@ -547,7 +574,7 @@ func execCache(id string, s *ev.Shard, root string, c CacheCase) *rp.Fail {
 				}
 			}
 			if id == "C02" && !st.Force {
-				for _, t := range c.Tasks {
+				for _, t := range active {
 					ts, snap := state[t.Name], now[t.Name]
 					executed := rr.rec.count[t.Name] > 0
 					if t.NCmds == 0 {
@@ -599,7 +626,7 @@ func execCache(id string, s *ev.Shard, root string, c CacheCase) *rp.Fail {
 			}
 
 			// ---- model update from the recorder's observations -----------------------
-			for _, t := range c.Tasks {
+			for _, t := range active {
 				ts := state[t.Name]
 				snap := now[t.Name]
 				if selfModified[t.Name] {
